@@ -354,7 +354,13 @@ func kvScenario(c *core.Ctx) {
 				break
 			}
 			_ = w.Close()
-			gate.settle(op.MR)
+			if gate != nil {
+				if gate.settle(op.MR) {
+					c.Probe("moss_merger_ran_until_idle")
+				} else {
+					c.Fault("moss_merger_stalled_over_batch")
+				}
+			}
 			c.Probe("batch")
 			continue
 		}
